@@ -784,3 +784,121 @@ func shapeTests(fn *ssa.Function) string {
 	}
 	return strings.Join(out, " ; ")
 }
+
+func init() {
+	register("ASG-1", "each fact-write sink receives the variable's own name / selector, the new value, and an up-to-date parent", 4, ruleASG1)
+}
+
+// ASG-1 (C04): addressing of the write. In Variable.Assign every sink call must name exactly the addressed location.
+func ruleASG1(c *Ctx) {
+	p := c.P
+	fn := p.Method("ast", "Variable", "Assign")
+	if fn == nil {
+		c.AnchorLost("(*ast.Variable).Assign")
+		return
+	}
+	recv := ssa.Value(receiver(fn))
+	newVal := ssa.Value(fn.Params[1])
+	sink, _ := c.sinkMatcher()
+	nameF := p.Field("ast", "Variable", "Name")
+	varF := p.Field("ast", "Variable", "Variable")
+	selF := p.Field("ast", "Variable", "ArrayMapSelector")
+	vnF := p.Field("ast", "Variable", "ValueNode")
+	selValF := p.Field("ast", "ArrayMapSelector", "Value")
+	isOwn := func(v ssa.Value, f *types.Var) bool {
+		lf, base := fieldLoad(v)
+		return lf == f && base == recv
+	}
+	parentNode := func(v ssa.Value) bool {
+		// e.Variable.ValueNode
+		lf, base := fieldLoad(v)
+		return lf == vnF && isOwn(base, varF)
+	}
+	selectorValue := func(v ssa.Value) bool {
+		found := false
+		backSliceKeys(v, func(x ssa.Value) bool {
+			if lf, base := fieldLoad(x); lf == selValF && isOwn(base, selF) {
+				found = true
+			}
+			return !found
+		})
+		return found
+	}
+	parentEval := findCalls(fn, func(ci ssa.CallInstruction) bool {
+		return matchNamedMethod(fullPkg("ast"), "Variable", "Evaluate")(ci) && isOwn(ci.Common().Args[0], varF)
+	})
+	selEval := findCalls(fn, func(ci ssa.CallInstruction) bool {
+		return matchNamedMethod(fullPkg("ast"), "ArrayMapSelector", "Evaluate")(ci) && isOwn(ci.Common().Args[0], selF)
+	})
+	dominatedByOneOf := func(calls []ssa.CallInstruction, in ssa.Instruction) bool {
+		for _, ci := range calls {
+			if ci.Block().Dominates(in.Block()) && (ci.Block() != in.Block() || instrIndex(ci.(ssa.Instruction)) < instrIndex(in)) {
+				return true
+			}
+		}
+		return false
+	}
+	n := 0
+	for _, ci := range findCalls(fn, sink) {
+		n++
+		cc := ci.Common()
+		name := calleeName(ci)
+		construct := "Variable.Assign / " + name + " addresses the assigned location"
+		var problems []string
+		args := cc.Args
+		if !cc.IsInvoke() {
+			args = args[1:]
+		}
+		var rcv ssa.Value
+		if cc.IsInvoke() {
+			rcv = cc.Value
+		} else {
+			rcv = cc.Args[0]
+		}
+		valueIsNew := func(v ssa.Value) bool {
+			return v == newVal || derivesFromArgsAny(v, newVal)
+		}
+		switch {
+		case strings.HasSuffix(name, ".Add"):
+			if len(args) != 2 || !isOwn(args[0], nameF) {
+				problems = append(problems, "the key is not the variable's own Name")
+			}
+			if len(args) == 2 && !valueIsNew(args[1]) {
+				problems = append(problems, "the stored object is not the new value")
+			}
+		case strings.HasSuffix(name, "SetObjectValueByField"):
+			if !parentNode(rcv) {
+				problems = append(problems, "the receiver is not the parent variable's value node")
+			}
+			if len(args) != 2 || !isOwn(args[0], nameF) {
+				problems = append(problems, "the field name is not the variable's own Name")
+			}
+			if len(args) == 2 && args[1] != newVal {
+				problems = append(problems, "the stored value is not the new value")
+			}
+			if !dominatedByOneOf(parentEval, ci.(ssa.Instruction)) {
+				problems = append(problems, "the parent variable is not re-evaluated before the write (its value node may be stale)")
+			}
+		case strings.HasSuffix(name, "SetArrayValueAt"), strings.HasSuffix(name, "SetMapValueAt"):
+			if !parentNode(rcv) {
+				problems = append(problems, "the receiver is not the parent variable's value node")
+			}
+			if len(args) != 2 || !selectorValue(args[0]) {
+				problems = append(problems, "the index/key is not the variable's own selector value")
+			}
+			if len(args) == 2 && args[1] != newVal {
+				problems = append(problems, "the stored value is not the new value")
+			}
+			if !dominatedByOneOf(parentEval, ci.(ssa.Instruction)) {
+				problems = append(problems, "the parent variable is not re-evaluated before the write")
+			}
+			if !dominatedByOneOf(selEval, ci.(ssa.Instruction)) {
+				problems = append(problems, "the selector is not evaluated before the write")
+			}
+		}
+		c.Check(len(problems) == 0, construct, p.InstrPos(ci), "own name/selector, new value, parent and selector evaluated first", "the write does not address exactly the assigned location: "+strings.Join(problems, "; "))
+	}
+	if n == 0 {
+		c.Fail("Variable.Assign / sink calls", p.Pos(fn.Pos()), "no fact-write sink call found (anchor lost)")
+	}
+}
